@@ -1026,6 +1026,13 @@ func Run(c *vh.Ctx) {
 		regLoadStreams(c)
 		return
 	}
+	if os.Getenv("C11_ONLY") == "boot" { // development aid: only the boot catalogue of the value stream
+		cs := bootExhaustive(c.Thorough())
+		for i := 0; i < len(cs); i += 64 {
+			rn.runValBatch(cs[i:min(i+64, len(cs))], "boot")
+		}
+		return
+	}
 	if os.Getenv("C11_ONLY") == "flight" { // development aid: only the in-flight stream
 		flightStreams(rn, factsLine)
 		depthLoadStreams(c, flightLimits(factsLine))
